@@ -147,15 +147,16 @@ def build(variant, outdir):
     lib_ref = build_lib(outdir, "libref", cc, refflags, incdir, prefix="ref_")
     # simulator objects (never instrumented with coverage guards)
     cxx = ["g++", "-std=c++17", "-O1", "-g", "-Wall", "-Wno-unused-function", "-I" + SIMDIR, "-I" + incdir]
+    cxx += ["-DSIM_COV=1"]
     if cov:
-        cxx += ["-DSIM_COV=1", "-fno-pic"]
+        cxx += ["-fno-pic"]
     if asan:
         cxx += ["-DSIM_NO_STATIC_FENCE=1", "-DSIM_DELEGATE_MALLOC=1", "-fsanitize=address,undefined", "-fno-omit-frame-pointer"]
     od = os.path.join(outdir, "simobjs")
     shutil.rmtree(od, ignore_errors=True)
     os.makedirs(od)
     jobs, objs = [], []
-    for s in SIM_SOURCES + (COV_SOURCES if cov else []):
+    for s in SIM_SOURCES + COV_SOURCES:   # scheduler, trap and C18 driver are part of every variant
         o = os.path.join(od, s[:-3] + ".o")
         objs.append(o)
         jobs.append(cxx + ["-c", os.path.join(SIMDIR, s), "-o", o])
